@@ -53,6 +53,13 @@ rec_spawnphase(struct stageinfo *phase, int *fd, char *input, char *output, bool
 #ifndef NPREV
 #define NPREV 0              /* temporaries left by earlier inputs of the same invocation (DRV.buildobj.prevtmp: 1) */
 #endif
+/* clauses about what the spawnphase stand-in recorded: the native replay runs the REAL spawnphase (replace_calls is
+   a goto-instrument step), so there they are vacuous and only the OS-model clauses are evaluated */
+#ifdef VERIF_REPLAY
+#define REC(c) 1
+#else
+#define REC(c) (c)
+#endif
 #define LINKING      ((g_stages0 >> LINK & 1) != 0)
 #define NRUN         popcount5(PRELINK(g_stages0))                 /* stages that must be spawned */
 #define STAGE_OF(k)  kth_stage(PRELINK(g_stages0), (k))
@@ -82,7 +89,7 @@ rec_spawnphase(struct stageinfo *phase, int *fd, char *input, char *output, bool
 	X(IMP(!RUNS, osm.nspawn == 0 && input->name == g_name0 && input->stages == g_stages0)) \
 	/* every requested stage was started exactly once, in pipeline order */ \
 	X(IMP(RUNS, osm.nspawn == NRUN && osm_nchild() == NRUN)) \
-	X(IMP(RUNS && g_k < NRUN, rec[g_k].phase == &stages[STAGE_OF(g_k)])) \
+	X(IMP(RUNS && g_k < NRUN, REC(rec[g_k].phase == &stages[STAGE_OF(g_k)]))) \
 	/* every spawned stage exited with status 0 ... */ \
 	X(IMP(RUNS, osm.nfail == 0)) \
 	/* ... and was reaped */ \
@@ -101,10 +108,10 @@ rec_spawnphase(struct stageinfo *phase, int *fd, char *input, char *output, bool
 	X(ZEROPIDS) \
 	/* the pipeline: the first stage reads the input file (or the driver's stdin), each later stage reads the pipe \
 	   its predecessor writes; only the last stage gets the output file */ \
-	X(IMP(RUNS && g_k < NRUN && g_k == 0, rec[g_k].fd_in == -1 && rec[g_k].input == (g_namedash ? (char *)0 : g_name0))) \
+	X(IMP(RUNS && g_k < NRUN && g_k == 0, REC(rec[g_k].fd_in == -1 && rec[g_k].input == (g_namedash ? (char *)0 : g_name0)))) \
 	X(IMP(RUNS && g_k < NRUN && g_k > 0, CH(g_k).in_pipe != -1 && CH(g_k).in_pipe == CH(g_k > 0 ? g_k - 1 : 0).out_pipe)) \
-	X(IMP(RUNS && g_k < NRUN, rec[g_k].last == ISLAST(g_k))) \
-	X(IMP(RUNS && g_k < NRUN && ISLAST(g_k), rec[g_k].output == input->name)) \
+	X(IMP(RUNS && g_k < NRUN, REC(rec[g_k].last == ISLAST(g_k)))) \
+	X(IMP(RUNS && g_k < NRUN && ISLAST(g_k), REC(rec[g_k].output == input->name))) \
 	/* the mkstemp descriptor is closed again */ \
 	X(osm.badclose == 0 && (osm.fd_open >> (2 * OSM_MAXCHILD)) == 0) \
 	CANARY(X, !(g_stages0 == 15 && g_k == 2 && g_out == 0))
@@ -174,6 +181,13 @@ harness(void)
 #endif
 	for (i = 0; i < NSTAGES; ++i)
 		stages[i].pid = 0;
+#ifdef VERIF_REPLAY
+	/* the real spawnphase runs natively: give every stage a base command */
+	for (i = 0; i < NSTAGES; ++i) {
+		arrayaddptr(&stages[i].cmd, "tool");
+		stages[i].cmdbase = stages[i].cmd.len;
+	}
+#endif
 
 	__CPROVER_assume(in_ft >= ASM && in_ft <= QBE);
 	__CPROVER_assume(in_stages >= 1 && in_stages <= 31);
